@@ -41,6 +41,8 @@ type SimBroker struct {
 	Published, Delivered, NoResponders int
 	// MaxPayload is announced in INFO (0 = 1 MiB); nats.go refuses larger publishes client-side.
 	MaxPayload int
+	// ConnOptions are appended to the options of every connection made afterwards.
+	ConnOptions []nats.Option
 }
 
 type bsub struct {
@@ -144,15 +146,16 @@ func (b *SimBroker) maxPayload() int {
 func (b *SimBroker) Connect(name string) (*nats.Conn, error) {
 	site := simrt.HarnessSite("nats.Connect")
 	simrt.Block(site)
-	nc, err := nats.Connect("nats://127.0.0.1:4222",
+	opts := append([]nats.Option{
 		nats.SetCustomDialer(&brokerDialer{b: b, name: name}),
 		nats.NoReconnect(),
-		nats.PingInterval(24*time.Hour),
+		nats.PingInterval(24 * time.Hour),
 		nats.Name(name),
 		nats.Timeout(time.Hour),
 		nats.FlusherTimeout(0),
 		nats.DrainTimeout(time.Hour),
-	)
+	}, b.ConnOptions...)
+	nc, err := nats.Connect("nats://127.0.0.1:4222", opts...)
 	simrt.Yield(site)
 	return nc, err
 }
